@@ -116,6 +116,8 @@ def _case(draw):
         fams.append({"members": members, "adjacent": nwin > 1 or shape == "two-sided"})
     case = {"fmt": fmt, "lines": lrs, "families": fams, "variant": {"padded": False} if fmt == "naunet" else {}, "krome_txt": krome_txt,
             "Av": draw(st.sampled_from([0.0, 1.0])), "extra_T": draw(st.lists(st.floats(min_value=2.7, max_value=1e5), min_size=1, max_size=3))}
+    # a fraction of the cases is also converted with naunet's own KROME writer (Network.write(..., "krome")) and read back
+    case["via_krome"] = fmt != "krome" and draw(st.integers(0, 3)) == 0
     # a fraction of the cases executes the cuSPARSE kernels on a batch of cells whose temperatures are probe
     # temperatures of this case (each cell must see only the reactions active at *its* temperature)
     if draw(st.integers(0, 5)) == 0:
@@ -254,6 +256,40 @@ def check_case(case, tier):
                                 bad = True
                 if bad:
                     break
+        if case.get("via_krome") and not failures:
+            # format conversion must keep the windows: same activity pattern after write("krome") + read + render
+            from naunet.network import Network as _Net
+
+            kp = str(d / "converted.krome")
+            try:
+                N.reset_naunet_state()
+                net.write(kp, "krome")
+                net2 = _Net(filelist=kp, fileformats="krome")
+                proj2 = R.render_rates(net2, d / "conv", backends=(("cvode", "dense", "cpu"),))["dense"]
+                ok_conv = proj2.nreac == len(lrs) + off
+            except Exception as e:
+                labels.append(f"krome-writer-refused-{type(e).__name__}")
+                ok_conv = False
+            if ok_conv:
+                labels.append("converted-via-krome-writer")
+                for T in ts:
+                    P = {"Tgas": T, "Av": case["Av"], "zeta": 1.3e-17, "zeta_cr": 1.3e-17, "zeta_xr": 0.0, "omega": 0.5, "G0": 1.0, "nH": 1e4, "Tdust": 10.0}
+                    try:
+                        k2, _ = R.eval_rates(proj2, P)
+                    except Exception as e:
+                        labels.append("converted-not-evaluable")
+                        break
+                    bad = [(i, lr) for i, lr in enumerate(lrs) if (k2[i + off] != 0.0) and not active(lr, T)]
+                    if bad:
+                        i, lr = bad[0]
+                        failures.append(("window/active-outside/after-krome-writer", f"after write('krome') + read: k[{i + off}]({T!r}) = {k2[i + off]!r} outside the declared window [{lr['tmin']},{lr['tmax']})"))
+                        break
+                    k1, _ = R.eval_rates(projs["dense"], P)
+                    dead = [(i, lr) for i, lr in enumerate(lrs) if active(lr, T) and k1[i + off] != 0.0 and k1[i + off] == k1[i + off] and k2[i + off] == 0.0]
+                    if dead:
+                        i, lr = dead[0]
+                        failures.append(("window/inactive-inside/after-krome-writer", f"after write('krome') + read: k[{i + off}]({T!r}) = 0.0 inside the declared window [{lr['tmin']},{lr['tmax']}) (direct rendering: {k1[i + off]!r})"))
+                        break
         if case.get("cuda") and not failures and "dense" in allp:
             b = dict(case["cuda"])
             b["tgas"] = [ts[i % len(ts)] for i in b["tsel"]]
